@@ -267,3 +267,11 @@ impl From<Window> for isize {
         w.0 as isize
     }
 }
+
+#[cfg(feature = "verif-hooks")]
+impl FlowControl {
+    /// The raw (possibly negative) window (verification hook, read-only).
+    pub fn window_size_raw(&self) -> Window {
+        self.window_size
+    }
+}
